@@ -207,6 +207,7 @@ pub fn stats_to_json(st: &Stats, digests: &[(u64, u64)]) -> J {
         .set("counters", counters)
         .set("clusters", J::Arr(clusters))
         .set("known", J::Arr(st.known.iter().map(|(id, (n, w))| J::obj().set("id", J::s(id)).set("n", J::u(*n)).set("w", w.clone())).collect()))
+        .set("samples", J::Arr(st.samples.clone()))
         .set("digest_count", J::u(digests.len() as u64))
 }
 
@@ -227,12 +228,21 @@ pub fn worker(out_prefix: &str) -> i32 {
     0
 }
 
-/// Main mode (release build): explore, then merge the other variants' reports and compare digests.
+/// Main mode: merge the reports of the three workers (release-default first) and compare digests.
+/// A worker that was killed by a signal (recorded by the driver in <prefix>.crash) is itself a
+/// violation: in the unchecked build a broken position invariant is undefined behaviour.
 pub fn c06(run: &mut Run, worker_prefixes: &[String]) -> Stats {
-    let (mut st, digests) = explore(run);
-    let mine: HashMap<u64, u64> = digests.iter().copied().collect();
-    let mut variants = vec![J::obj().set("variant", J::s(&variant_name())).set("cases", J::u(st.get("evaluations"))).set("patterns", J::u(digests.len() as u64))];
-    for pre in worker_prefixes {
+    let mut st = Stats::default();
+    let mut mine: HashMap<u64, u64> = HashMap::new();
+    let mut variants = Vec::new();
+    for (wi, pre) in worker_prefixes.iter().enumerate() {
+        let label = std::path::Path::new(pre).file_name().and_then(|f| f.to_str()).unwrap_or("?").to_string();
+        if let Ok(sig) = std::fs::read_to_string(format!("{}.crash", pre)) {
+            let case = J::obj().set("kind", J::s("worker_crash")).set("variant", J::s(&label)).set("what", J::s("the exploration process of this build variant was killed by a signal while running the subject: memory unsafety in the explored space (see the other variants' witnesses for the input)")).set("signal", J::s(sig.trim()));
+            st.violation(&run.known, "C06", &format!("process crashed ({}) while exploring [{}]", sig.trim(), label), 0, case);
+            variants.push(J::obj().set("variant", J::s(&label)).set("crashed", J::s(sig.trim())));
+            continue;
+        }
         let (Ok(txt), Ok(bin)) = (std::fs::read_to_string(format!("{}.json", pre)), std::fs::read(format!("{}.bin", pre))) else {
             st.error(format!("missing worker output {}", pre));
             continue;
@@ -242,48 +252,60 @@ pub fn c06(run: &mut Run, worker_prefixes: &[String]) -> Stats {
             continue;
         };
         let vname = j.get("variant").and_then(|v| v.str()).unwrap_or("?").to_string();
-        // relay the worker's violations
+        // relay the worker's violations and known findings
         for c in j.get("clusters").and_then(|c| c.arr()).cloned().unwrap_or_default() {
             let sig = c.get("cluster").and_then(|s| s.str()).unwrap_or("?").to_string();
             let count = c.get("count").and_then(|s| s.int()).unwrap_or(1) as u64;
             let weight = c.get("weight").and_then(|s| s.int()).unwrap_or(1) as usize;
             let first = c.get("first").cloned().unwrap_or(J::Null);
-            for _ in 0..count.min(1) {
-                st.violation(&run.known, "C06", &sig, weight, first.clone());
-            }
+            st.violation(&run.known, "C06", &sig, weight, first);
             if let Some(cl) = st.clusters.get_mut(&sig) {
                 cl.count += count.saturating_sub(1);
             }
         }
+        for (k, v) in j.get("counters").and_then(|c| match c { J::Obj(o) => Some(o.clone()), _ => None }).unwrap_or_default() {
+            if let Some(n) = v.int() {
+                if matches!(k.as_str(), "evaluations" | "validated" | "transitions" | "nontrivial" | "undecided_fuel" | "patterns_evaluated") {
+                    st.add(&k, n as u64);
+                }
+            }
+        }
+        for smp in j.get("samples").and_then(|c| c.arr()).cloned().unwrap_or_default().into_iter().take(4) {
+            st.sample(|| smp);
+        }
         let cases = j.get("counters").and_then(|c| c.get("evaluations")).and_then(|e| e.int()).unwrap_or(0) as u64;
-        st.add("evaluations", cases);
-        st.add("validated", cases);
-        st.add("transitions", j.get("counters").and_then(|c| c.get("transitions")).and_then(|e| e.int()).unwrap_or(0) as u64);
         // digests
+        let mut pairs: Vec<(u64, u64)> = Vec::new();
+        for ch in bin.chunks_exact(16) {
+            pairs.push((u64::from_le_bytes(ch[0..8].try_into().unwrap()), u64::from_le_bytes(ch[8..16].try_into().unwrap())));
+        }
+        if wi == 0 || mine.is_empty() {
+            mine = pairs.iter().copied().collect();
+            variants.push(J::obj().set("variant", J::s(&vname)).set("cases", J::u(cases)).set("patterns", J::u(pairs.len() as u64)).set("role", J::s("baseline for the comparison")));
+            continue;
+        }
         let mut differing = 0u64;
         let mut compared = 0u64;
-        for ch in bin.chunks_exact(16) {
-            let k = u64::from_le_bytes(ch[0..8].try_into().unwrap());
-            let d = u64::from_le_bytes(ch[8..16].try_into().unwrap());
-            match mine.get(&k) {
-                Some(&m) => {
+        for (k, d) in &pairs {
+            match mine.get(k) {
+                Some(m) => {
                     compared += 1;
                     if m != d {
                         differing += 1;
                     }
                 }
-                None => st.error(format!("variant {} evaluated a pattern the release variant did not (hash {:x})", vname, k)),
+                None => st.error(format!("variant {} evaluated a pattern the baseline variant did not (hash {:x})", vname, k)),
             }
         }
         if compared != mine.len() as u64 {
-            st.error(format!("variant {} evaluated {} patterns, release {}", vname, compared, mine.len()));
+            st.error(format!("variant {} evaluated {} patterns, baseline {}", vname, compared, mine.len()));
         }
         st.add("patterns_compared_across_variants", compared);
         if differing > 0 {
-            let case = J::obj().set("kind", J::s("variant_digest")).set("variant", J::s(&vname)).set("what", J::s("results differ between this build variant and the default release build (same cases, different answers)")).set("patterns_differing", J::u(differing)).set("how_to_locate", J::s("run ./check C15, which replays the case list per variant and decodes the first differing case"));
-            st.violation(&run.known, "C06", &format!("results differ between build variants: {} vs release-default", vname), 1, case);
+            let case = J::obj().set("kind", J::s("variant_digest")).set("variant", J::s(&vname)).set("what", J::s("results differ between this build variant and the baseline build (same cases, different answers)")).set("patterns_differing", J::u(differing)).set("how_to_locate", J::s("mc c15-dump <key> in both variants prints the per-case results of one pattern; ./check C15 compares all six configurations"));
+            st.violation(&run.known, "C06", &format!("results differ between build variants: {} vs baseline", vname), 1, case);
         }
-        variants.push(J::obj().set("variant", J::s(&vname)).set("cases", J::u(cases)).set("patterns", J::u(compared)).set("patterns_differing_from_release", J::u(differing)));
+        variants.push(J::obj().set("variant", J::s(&vname)).set("cases", J::u(cases)).set("patterns", J::u(compared)).set("patterns_differing_from_baseline", J::u(differing)));
     }
     run.extra.push(("variants".into(), J::Arr(variants)));
     run.rule = "every AST of the profiles utf8, 1char, look, lit, icase, core, vset up to the size bound x flags x haystacks over {a, é, €, U+1F600 (+ profile letters)} (all four UTF-8 lengths, every adjacency, empty, both ends) x every start the API accepts (each char boundary, len, len+1; every byte offset for the ASCII entry points) x {backtracking via Regex::find_from, PikeVM, both ASCII entry points} x {optimised, no_opt}; run in each build variant listed under coverage.variants; non-trivial = at least one match".into();
